@@ -187,7 +187,9 @@ class ExprMixin:
         if ck == 'ToVoid':
             return f'((void)({self.ex(sub)}))'
         if ck in ('DerivedToBase', 'UncheckedDerivedToBase') and self.family(self.tyof(sub)) == 'iter' and self.family(self.tyof(n)) == 'iter':
-            return self.ex(sub)          # library iterator compared through its base class: same model pointer
+            return self.ex(sub)
+        if ck in ('DerivedToBase', 'UncheckedDerivedToBase') and self.family(self.tyof(sub)) == 'atomic':
+            return self.ex(sub)          # std::atomic<T> used through its __atomic_base: same model value          # library iterator compared through its base class: same model pointer
         raise LoweringError(f'no rule for cast kind {ck}')
 
     def explicit_cast(self, n):
